@@ -162,6 +162,10 @@ type Exec struct {
 	typeTags       map[string]int
 	curFrame       *Frame
 	usesSz         bool
+	callCount   map[string]int
+	sortCount   int
+	rangeEntry  map[*ssa.Range]Term
+	rangeOfLoop map[*ssa.BasicBlock]*ssa.Range
 	mu             sync.Mutex
 	oblNames       map[string]int
 	replayStrTerms []string
@@ -781,8 +785,16 @@ func VerifyFunction(ld *Loader, db *ContractDB, fn *ssa.Function, con *Contract)
 			x.note("pointer receivers are non-nil (checked at every call site under contract)")
 		}
 	}
-	if len(fn.FreeVars) > 0 {
-		x.fail("closure with free variables verified standalone")
+	for _, fv := range fn.FreeVars {
+		// a closure under contract: each captured variable is a cell; contracts name its entry value
+		et := fv.Type().(*types.Pointer).Elem()
+		ref := x.b.FreshNamed("fv_"+fv.Name(), SInt)
+		x.b.Assert(And(mk(SBool, "(> %s 0)", ref), mk(SBool, "(< %s %s)", ref, alloc0)))
+		f.regs[fv] = Val{T: ref, LV: &LValue{kind: LVCell, base: ref, ty: et}}
+		cs := ArraySort(SInt, x.tm.SortOf(et))
+		v := Select(st.Heap(x, x.cellHeapName(et), cs), ref)
+		x.b.Assert(x.typeFact(v, et, alloc0))
+		x.params[fv.Name()] = TV{v, et}
 	}
 	res := fn.Signature.Results()
 	for i := 0; i < res.Len(); i++ {
@@ -930,8 +942,8 @@ func (x *Exec) frameObligations(f *Frame, ex exitState) {
 	sort.Strings(names)
 	mods := x.resolveModifies(x.con, x.newEnv(x.paramVars(), x.entry, x.entry))
 	for _, n := range names {
-		if n == "$alloc" {
-			continue
+		if strings.HasPrefix(n, "$") {
+			continue // $alloc and ghost iteration state
 		}
 		fin := ex.st.heaps[n]
 		ini, ok := x.initHeaps[n]
@@ -1397,6 +1409,14 @@ func (x *Exec) cutLoop(f *Frame, li *loopInfo) {
 			continue
 		}
 		fr := loopFrame{heap: h, pre: pre.Heap(x, h, mod.heaps[h]), allocPre: pre.Alloc(x), excl: lms.objs[h]}
+		// cells of the function's own address-taken locals are locals, not pre-existing objects
+		for v, r := range f.regs {
+			if a, ok := v.(*ssa.Alloc); ok && a.Heap && r.LV != nil && r.LV.kind == LVCell && len(r.LV.path) == 0 {
+				if x.cellHeapName(a.Type().(*types.Pointer).Elem()) == h {
+					fr.excl = append(fr.excl, r.LV.base)
+				}
+			}
+		}
 		li.frames = append(li.frames, fr)
 		x.addQhyp(st, qhyp{mark: x.b.Mark(), guard: st.reach, expr: loopFrameExpr, env: x.loopFrameEnv(fr, st.heaps[h]), src: "loop frame of " + h})
 	}
@@ -1438,7 +1458,27 @@ func (x *Exec) loopVars(f *Frame, li *loopInfo) map[string]TV {
 	for n, a := range best {
 		vars[n] = TV{st.locals[a], a.Type().(*types.Pointer).Elem()}
 	}
-	// named results
+	// named locals that live in cells (captured by closures / address taken)
+	for v, r := range f.regs {
+		a, ok := v.(*ssa.Alloc)
+		if !ok || !a.Heap || a.Comment == "" || r.LV == nil || r.LV.kind != LVCell {
+			continue
+		}
+		et := a.Type().(*types.Pointer).Elem()
+		if _, exists := vars[a.Comment]; exists {
+			continue
+		}
+		cs := ArraySort(SInt, x.tm.SortOf(et))
+		vars[a.Comment] = TV{Select(st.Heap(x, x.cellHeapName(et), cs), r.LV.base), et}
+	}
+	// visited(k) of the map range that drives this loop
+	for _, ins := range li.header.Instrs {
+		if nx, ok := ins.(*ssa.Next); ok && !nx.IsString {
+			rng := nx.Iter.(*ssa.Range)
+			mt := rng.X.Type().Underlying().(*types.Map)
+			vars["$visited"] = TV{st.Heap(x, x.visitedName(rng), ArraySort(x.tm.SortOf(mt.Key()), SBool)), nil}
+		}
+	}
 	return vars
 }
 
@@ -1545,6 +1585,12 @@ func (x *Exec) instrModifies(f *Frame, ins ssa.Instruction, mi *modInfo, depth i
 		mi.heaps[x.mapHeapName(mt)] = ArraySort(SInt, x.mapSort(mt))
 	case *ssa.MakeSlice, *ssa.MakeClosure, *ssa.MakeInterface:
 		mi.heaps["$alloc"] = SInt
+	case *ssa.Next:
+		if !i.IsString {
+			rng := i.Iter.(*ssa.Range)
+			mt := rng.X.Type().Underlying().(*types.Map)
+			mi.heaps[x.visitedName(rng)] = ArraySort(x.tm.SortOf(mt.Key()), SBool)
+		}
 	case *ssa.MapUpdate:
 		mt := i.Map.Type().Underlying().(*types.Map)
 		mi.heaps[x.mapHeapName(mt)] = ArraySort(SInt, x.mapSort(mt))
